@@ -157,6 +157,44 @@ pub fn is_date_narrowing_cast(from_type: &DataType, to_type: &DataType) -> bool 
     matches!((from_type, to_type), (DataType::Date64, DataType::Date32))
 }
 
+/// Returns true when `from_type` and `to_type` are integer types and some value
+/// of `from_type` is not representable in `to_type`.
+///
+/// This is used by comparison cast unwrapping for `TRY_CAST`: a narrowing
+/// `TRY_CAST(int_col AS narrower)` evaluates to NULL for values that do not fit,
+/// so `TRY_CAST(c AS TINYINT) = 1` is NULL for `c = 300` while the unwrapped
+/// comparison `c = 1` is `false`.
+pub fn is_integer_narrowing_cast(from_type: &DataType, to_type: &DataType) -> bool {
+    // (is_signed, bit width)
+    fn integer_layout(data_type: &DataType) -> Option<(bool, u8)> {
+        match data_type {
+            DataType::Int8 => Some((true, 8)),
+            DataType::Int16 => Some((true, 16)),
+            DataType::Int32 => Some((true, 32)),
+            DataType::Int64 => Some((true, 64)),
+            DataType::UInt8 => Some((false, 8)),
+            DataType::UInt16 => Some((false, 16)),
+            DataType::UInt32 => Some((false, 32)),
+            DataType::UInt64 => Some((false, 64)),
+            _ => None,
+        }
+    }
+
+    let (Some((from_signed, from_bits)), Some((to_signed, to_bits))) =
+        (integer_layout(from_type), integer_layout(to_type))
+    else {
+        return false;
+    };
+
+    match (from_signed, to_signed) {
+        (true, true) | (false, false) => from_bits > to_bits,
+        // an unsigned value needs one more bit in a signed type
+        (false, true) => from_bits >= to_bits,
+        // negative values are not representable
+        (true, false) => true,
+    }
+}
+
 fn timestamp_unit_scale(unit: &TimeUnit) -> i128 {
     match unit {
         TimeUnit::Second => 1,
